@@ -91,6 +91,15 @@ func (association *Association) Replace(values ...interface{}) error {
 				}
 			}
 			if _, fvs := schema.GetIdentityFieldValuesMap(association.DB.Statement.Context, reflectValue, foreignFields); len(fvs) > 0 {
+				// the key VALUES as they are now: the foreign-key fields may be pointers that the save
+				// below writes through
+				for _, fv := range fvs {
+					for i, v := range fv {
+						if rv := reflect.ValueOf(v); rv.IsValid() && rv.Kind() == reflect.Ptr && !rv.IsNil() {
+							fv[i] = rv.Elem().Interface()
+						}
+					}
+				}
 				column, values := schema.ToQueryValues(rel.FieldSchema.Table, rel.FieldSchema.PrimaryFieldDBNames, fvs)
 				oldBelongsToExpr = clause.IN{Column: column, Values: values}
 			}
@@ -122,7 +131,13 @@ func (association *Association) Replace(values ...interface{}) error {
 				association.Error = association.DB.Session(&Session{}).UpdateColumns(updateMap).Error
 			}
 			if association.Unscope && oldBelongsToExpr != nil {
-				association.Error = association.DB.Model(nil).Where(oldBelongsToExpr).Delete(reflect.New(rel.FieldSchema.ModelType).Interface()).Error
+				tx := association.DB.Model(nil).Where(oldBelongsToExpr)
+				// a record that is linked again by this call stays
+				if _, rvs := schema.GetIdentityFieldValuesMapFromValues(association.DB.Statement.Context, values, rel.FieldSchema.PrimaryFields); len(rvs) > 0 {
+					column, keep := schema.ToQueryValues(rel.FieldSchema.Table, rel.FieldSchema.PrimaryFieldDBNames, rvs)
+					tx = tx.Not(clause.IN{Column: column, Values: keep})
+				}
+				association.Error = tx.Delete(reflect.New(rel.FieldSchema.ModelType).Interface()).Error
 			}
 		case schema.HasOne, schema.HasMany:
 			var (
